@@ -1,6 +1,7 @@
 (* C08: class of a command on torrent bytes according to Model/Crash.v.
    crash <show|link|verify|dump|stats> <data> <accepted urls> <accepted encoded nodes> -> OK ok|err|panic
-   utf8 <bytes> -> OK 1|0 *)
+   utf8 <bytes> -> OK 1|0
+   tree <data> <accepted urls> <accepted encoded nodes> -> OK <lines of the file tree of the terminal layout> | OK none *)
 let () = register "crash" (function
   | [cmd; data; urls; nodes] ->
     let c = (match cmd with "show" -> 0 | "link" -> 1 | "verify" -> 2 | "dump" -> 3 | _ -> 4) in
@@ -8,3 +9,8 @@ let () = register "crash" (function
      | Ok0 -> "OK ok" | Err1 -> "OK err" | Panic101 -> "OK panic")
   | _ -> "BADARGS")
 let () = register "utf8" (function [s] -> if crash_utf8_ok (bytes_of_hex s) then "OK 1" else "OK 0" | _ -> "BADARGS")
+let () = register "tree" (function
+  | [data; urls; nodes] ->
+    (match crash_tree_rows (list_field bytes_of_hex urls) (list_field bytes_of_hex nodes) (bytes_of_hex data) with
+     | Some ls -> "OK " ^ hexlist ls | None -> "OK none")
+  | _ -> "BADARGS")
